@@ -58,15 +58,24 @@ def main(argv):
     ids = [a for a in argv if re.fullmatch(r"C\d\d", a)]
     results = []
     if seeded:
-        dirs = sorted(glob.glob(os.path.join(HERE, "seeded", "*", "patch.diff")))
-        for patch in dirs:
+        from concurrent.futures import ThreadPoolExecutor
+        par = int(os.environ.get("VERIF_SELFTEST_PARALLEL", "1"))
+        todo = []
+        for patch in sorted(glob.glob(os.path.join(HERE, "seeded", "*", "patch.diff"))):
             meta = json.load(open(os.path.join(os.path.dirname(patch), "meta.json")))
             prop = meta["property"]
             if ids and prop not in ids:
                 continue
-            res = one(patch, prop, extra_props=tuple(meta.get("also_check", [])))
-            print(json.dumps(res)[:600], flush=True)
-            results.append(res)
+            todo.append((patch, prop, tuple(meta.get("also_check", []))))
+
+        def sjob(a):
+            res = one(a[0], a[1], extra_props=a[2])
+            res["seed"] = os.path.basename(os.path.dirname(a[0]))
+            print(json.dumps(res)[:400], flush=True)
+            return res
+
+        with ThreadPoolExecutor(par) as ex:
+            results = list(ex.map(sjob, todo))
         dest = os.path.join(HERE, "seeded", "RESULTS.json")
     else:
         from concurrent.futures import ThreadPoolExecutor
